@@ -42,6 +42,7 @@ def tasks(tier, seed):
     ts.append({"part": "redirects", "name": "redirects"})
     ts.append({"part": "faults", "name": "faults"})
     ts.append({"part": "interim", "name": "interim"})
+    ts.append({"part": "longline", "name": "longline"})
     return ts
 
 
@@ -247,6 +248,23 @@ def interim_case(istatus, ifields, ffields, offered):
     return check_outcome(net, ws, out, expect, label, {"part": "interim", "missing_in_final": sorted(need - set(ffields))[:1]})
 
 
+def longline_case(field, offset, filler):
+    """A 101 response that LACKS one required field, but carries the text of that field inside an over-long header line, starting at byte
+    `offset` of that line (so that an implementation which cuts long lines into pieces would read it as a header of its own).
+    Whatever limit on line lengths exists, the response announces no valid upgrade: never connected."""
+    def respond(req, hop, sock):
+        fields = {"upgrade": "Upgrade: websocket", "connection": "Connection: Upgrade", "accept": "Sec-WebSocket-Accept: " + HS.accept_for(req["key"])}
+        hidden = fields.pop(field)
+        pad = "X-Trace: "
+        pad += filler * (offset - len(pad))
+        lines = ["HTTP/1.1 101 Switching Protocols"] + list(fields.values()) + [pad + hidden]
+        return ("\r\n".join(lines) + "\r\n\r\n").encode()
+
+    net, ws, out, hops = run_connect(respond, {})
+    label = "101 without %s, whose text sits at byte %d of an over-long header line" % (field, offset)
+    return check_outcome(net, ws, out, False, label, {"part": "longline", "field": field})
+
+
 def redirect_case(length, limit, ending, rstatus):
     """chain of `length` redirects then `ending`."""
     def respond(req, hop, sock):
@@ -350,6 +368,14 @@ def run_task(desc):
                 n += 1
                 rec(guarded(recipe_case, status, up, co, ac, of, se, "stale"), {"case": "recipe", "args": [status, up, co, ac, of, se, "stale"]})
         res["samples"].append({"status": status, "upgrade": UPGRADES[:3], "accept_variants": ACCEPTS})
+    elif desc["part"] == "longline":
+        offsets = sorted({2 ** k + d for k in range(6, 18) for d in (-1, 0, 1)} | {1000, 8190, 8192, 65534, 65535, 65536, 65537, 100000})
+        for field in ("upgrade", "connection", "accept"):
+            for off in offsets:
+                for filler in ("a", " "):
+                    n += 1
+                    rec(guarded(longline_case, field, off, filler), {"case": "longline", "args": [field, off, filler]})
+        res["samples"].append({"longline_offsets": offsets[:6] + offsets[-4:]})
     elif desc["part"] == "interim":
         F = ["upgrade", "connection", "accept", "protocol"]
         subsets = [tuple(f for i, f in enumerate(F) if m >> i & 1) for m in range(16)]
@@ -384,6 +410,6 @@ def run_task(desc):
 
 
 def replay(rep):
-    fn = {"recipe": recipe_case, "redirect": redirect_case, "fault": fault_case, "interim": interim_case}[rep["case"]]
+    fn = {"recipe": recipe_case, "redirect": redirect_case, "fault": fault_case, "interim": interim_case, "longline": longline_case}[rep["case"]]
     f = fn(*rep["args"])
     return None if f is None else {"sig": f[0], "what": f[1]}
